@@ -42,7 +42,7 @@ func lookupEdges(fn *ssa.Function, m ssa.Value, idx func(ssa.Value) bool, presen
 }
 
 func init() {
-	register("C11", []string{"./gossip", "./cache"},
+	register("C11", []string{"./gossip", "./cache", "./pipe"},
 		"Structural half of 'gossip reaches every node exactly once and terminates': an incoming item is processed only behind the not-seen edge of the recent-hash memory and the not-listed edge of the VERIFIED gossiper set; "+
 			"a vertex is forwarded only behind the success edge of the ledger admission (summarised through sendToAccountant → AddLeaf), a transaction only behind conversion and issuer-signature verification; "+
 			"the node signs and inserts itself into the set and the outgoing list before forwarding; the forward loop skips every peer in the set and runs under the peer-table read lock; origin processes start with a list containing self. "+
@@ -95,6 +95,7 @@ func runC11(w *World, r *Report) {
 	r.NotDecided = []string{"delivery to every node of a connected topology", "exactly-once admission and termination over all delivery orders", "that HasHash marks an item seen before the ledger accepted it (a vertex first received before its parents is never forwarded by that node later) — topology dependent"}
 	li := ComputeLocks(w, func(fn *ssa.Function) bool { return fn.Pkg != nil && fn.Pkg.Pkg.Path() == modPath+"/gossip" })
 
+	handOverIsLossless(w, r, "hand-over-to-the-origin-loop-waits")
 	r.rule("process-once", "an incoming item is processed (ledger / cache / forward) only behind HasHash(item.Hash) == false and self ∉ verified set", 6)
 	r.rule("forward-after-accept", "forwarding lies behind the success edge of acceptance and after the node put itself into the set and the outgoing list", 6)
 	for _, row := range gossipRows {
@@ -1472,4 +1473,87 @@ func keyIsRequestAddress(w *World, fn *ssa.Function, key ssa.Value, h *ssa.Funct
 		}
 	}
 	return sites > 0
+}
+
+// handOverIsLossless (C11): an item the notary accepted locally (the vertex is in the ledger, the transaction in the
+// awaiting cache) reaches the other nodes only through the pipe to the gossiper's origin loops. A hand-over that gives up
+// when the buffer of the pipe is full — a select with a default arm around the send — drops exactly the items of a burst.
+func handOverIsLossless(w *World, r *Report, rule string) {
+	r.rule(rule, "every method of pipe.Juggler that takes an item sends it on the pipe with a send that waits (a plain send, in the method or in the goroutine it starts, or a select without default arm); a select that can fall through its default arm without a send or a goroutine following it loses the item when the buffer is full", 2)
+	fns := w.RepoFuncs("pipe")
+	n := 0
+	for _, fn := range fns {
+		if fn.Signature.Recv() == nil || fn.Parent() != nil || !strings.HasSuffix(fn.Signature.Recv().Type().String(), "pipe.Juggler") || len(fn.Params) < 2 {
+			continue
+		}
+		// the item parameter: its type is the element type of a channel field of the Juggler
+		var sends, lossy []ssa.Instruction
+		var visit func(g *ssa.Function)
+		visit = func(g *ssa.Function) {
+			instrsOf(g, func(in ssa.Instruction) {
+				switch x := in.(type) {
+				case *ssa.Send:
+					if chanFieldIdent(x.Chan) != "" || capturedChan(x.Chan) {
+						sends = append(sends, x)
+					}
+				case *ssa.Select:
+					for _, st := range x.States {
+						if st.Dir != types.SendOnly {
+							continue
+						}
+						if x.Blocking {
+							sends = append(sends, x)
+							continue
+						}
+						// the default arm: is another send or a goroutine reachable after the select?
+						again := false
+						walkFrom(x, nil, nil, func(in2 ssa.Instruction) bool {
+							switch in2.(type) {
+							case *ssa.Send, *ssa.Go:
+								again = true
+								return true
+							}
+							return false
+						})
+						if again {
+							sends = append(sends, x)
+						} else {
+							lossy = append(lossy, x)
+						}
+					}
+				}
+			})
+			for _, a := range g.AnonFuncs {
+				visit(a)
+			}
+		}
+		visit(fn)
+		if len(sends) == 0 && len(lossy) == 0 {
+			continue
+		}
+		n++
+		bad := ""
+		for _, l := range lossy {
+			bad += fmt.Sprintf(" the select at %s sends only if the pipe has room and otherwise gives the item up;", lineOf(w, l))
+		}
+		r.check(bad == "", rule, shortFn(fn), w.Pos(fn.Pos()), "the item is handed to the origin loop by a send that waits for room", bad)
+	}
+	if n == 0 {
+		r.bad(rule, "pipe.Juggler", "-", "the sending methods of the pipe are identifiable", "no method of pipe.Juggler sends on a channel")
+	}
+}
+
+// capturedChan: the channel is a field read through a captured receiver inside a function literal.
+func capturedChan(v ssa.Value) bool {
+	v = strip(v)
+	if u, ok := v.(*ssa.UnOp); ok && u.Op == token.MUL {
+		if fa, ok := u.X.(*ssa.FieldAddr); ok {
+			_, isFV := strip(fa.X).(*ssa.FreeVar)
+			if ld, isLd := strip(fa.X).(*ssa.UnOp); isLd {
+				_, isFV = ld.X.(*ssa.FreeVar)
+			}
+			return isFV
+		}
+	}
+	return false
 }
